@@ -8,6 +8,8 @@ import DimodProofs.CqmInv
 import DimodProofs.NoUBExpr
 import DimodModel.CppCover
 import DimodProofs.NoUBCqm
+import DimodProofs.CyCqmVars
+import DimodProofs.CqmChangeVartype
 
 /-! # C20 — no call sequence corrupts the native data structures
 
@@ -253,6 +255,61 @@ example : Cqm.PreAll {} [.addConstraint, .addConstraint, .consOp 1 (.addQuadrati
   · show (1 : Nat) < _; decide +kernel
 
 example : (({ vt := [.binary], lb := [0], ub := [1] } : Cqm).cstep? (.removeVariable 3)).isSome = false := by
+  decide +kernel
+
+/-! ## round 8: labels and native records of a constrained model through `add_variables` (Cython layer) -/
+
+/-- **`cyConstrainedQuadraticModel.add_variables`** as coded (`CyCqm.Vars.addVariables`, DimodModel/CyCqmVars.lean: per element
+    `_append(v, permissive=True)`, then the consistency checks of a label that existed or `cppcqm.add_variable(vt, lb, ub)`,
+    with the running `count` of the code): from a model whose label list and native records (`varinfo_`) are in step, for every
+    vartype, bounds, "bound given" flags and argument list - new labels, repeated labels, labels that exist with the same or
+    with another vartype / bounds, unhashable objects, in any order - and WHETHER OR NOT THE CALL RAISES:
+    labels and native records are in step afterwards (no label without a native variable: no index past the end of `varinfo_`),
+    the model is the model before extended by new labels that all carry the record `(vt, lb, ub)` (no existing label or record
+    is touched, the labels before a rejected element stay, as documented), and the `RuntimeError("something went wrong")`
+    branch is unreachable. -/
+theorem cy_add_variables_lock_step (m : CyCqm.Vars) (h : m.labels.length = m.info.length) (vt : QVT) (lb ub : Rat)
+    (lbGiven ubGiven : Bool) (vs : List (Option Label)) :
+    (m.addVariables vt lb ub lbGiven ubGiven vs).1.labels.length = (m.addVariables vt lb ub lbGiven ubGiven vs).1.info.length ∧
+    CyCqm.Ext vt lb ub m (m.addVariables vt lb ub lbGiven ubGiven vs).1 ∧
+    (m.addVariables vt lb ub lbGiven ubGiven vs).2 ≠ some .runtime :=
+  CyCqm.addVariables_spec m h vt lb ub lbGiven ubGiven vs
+
+/-- non-vacuity, and the documented partial effect: two new labels, then a label that exists as BINARY, then another new label -
+    the call raises ValueError, the two labels before the conflict are in the model WITH their native records -/
+example :
+    ({ labels := [.str "x"], info := [(.binary, 0, 1)] } : CyCqm.Vars).addVariables .spin (-1) 1 true true
+        [some (.str "s"), some (.str "t"), some (.str "x"), some (.str "u")]
+      = ({ labels := [.str "x", .str "s", .str "t"], info := [(.binary, 0, 1), (.spin, -1, 1), (.spin, -1, 1)] }, some .value) := by
+  decide +kernel
+
+/-- the theorem is about the code as it is: growing the native model once AFTER the loop (seeded change C20-9,
+    `CyCqm.Vars.addVariablesBatched`) leaves, on the same input, three labels over one native record -/
+example :
+    (({ labels := [.str "x"], info := [(.binary, 0, 1)] } : CyCqm.Vars).addVariablesBatched .spin (-1) 1 true true
+        [some (.str "s"), some (.str "t"), some (.str "x"), some (.str "u")]).1
+      = { labels := [.str "x", .str "s", .str "t"], info := [(.binary, 0, 1)] } := by
+  decide +kernel
+
+/-! ## round 8: `ConstrainedQuadraticModel::change_vartype` -/
+
+/-- **`ConstrainedQuadraticModel::change_vartype(target, v)`** as coded (`Cqm.changeVartypeC`, DimodModel/CqmChangeVartype.lean:
+    the branch on the vartype `v` has, `substitute_variable(v, mult, c)` on the objective and on every constraint, the three
+    `varinfo_[v]` writes; SPIN → INTEGER through BINARY; any other pair throws `std::logic_error` before anything is changed):
+    on a well-formed model with `v < num_variables()` - the documented precondition - the call with every vector access checked
+    never fails, equals the unchecked call, and leaves the model well-formed, for every target vartype (the unsupported ones
+    included).  With `cqm_no_ub` this covers the CQM-level mutators of the header except the copying `fix_variables`, the
+    constraint-building overloads with a mapping and `remove_constraints_if` (interpreter + Python sequences only). -/
+theorem cqm_change_vartype_no_ub (m : Cqm) (w : CqmP.CqmCWF m) (t : VT4) (v : Nat) (hv : v < m.vt.length) :
+    m.changeVartypeC? t v = some (m.changeVartypeC t v) ∧ CqmP.CqmCWF (m.changeVartypeC t v).1 :=
+  CqmP.changeVartypeC?_eq w t v hv
+
+/-- non-vacuity: SPIN → INTEGER on a variable that the objective uses with a self-product-free interaction runs the five calls
+    (and is checked: an index outside the model is a failing access) -/
+example : ((({ vt := [.spin, .binary], lb := [-1, 0], ub := [1, 1] } : Cqm).cstep (.objOp (.addQuadratic 0 1 1))).changeVartypeC? .integer 0).isSome = true ∧
+    (({ vt := [.spin, .binary], lb := [-1, 0], ub := [1, 1] } : Cqm).changeVartypeC .integer 0).1.vt = [.integer, .binary] ∧
+    (({ vt := [.spin], lb := [-1], ub := [1] } : Cqm).changeVartypeC? .binary 3) = none ∧
+    (({ vt := [.integer], lb := [0], ub := [5] } : Cqm).changeVartypeC .spin 0).2 = true := by
   decide +kernel
 
 end C20
